@@ -1,6 +1,6 @@
 SPECIFICATION Spec
 CONSTANTS
-  Classes = {"bs", "dq", "sq", "sl", "st", "mi", "pl", "dot", "pc", "ha", "at", "ex", "lt", "gt", "eq", "us", "lp", "rp", "lb", "sc", "dig", "hexl", "let", "u", "sp", "lf", "cr", "na"}
+  Classes = {"bs", "dq", "sq", "sl", "st", "mi", "pl", "dot", "pc", "ha", "at", "ex", "lt", "gt", "eq", "us", "lp", "rp", "lb", "sc", "dig", "hexl", "let", "u", "sp", "lf", "cr", "na", "as"}
   MaxLen = 3
   EscLen = 4
   SeqLen = 1
